@@ -21,6 +21,8 @@ pub enum Op {
     /// MSS grows, peer window NOT re-applied yet (the ST_DATA branch of packet processing)
     SetMssOnly { inc: u16 },
     SetRwnd(u32),
+    /// the peer window dips, the MSS is raised while it is low, the peer window re-opens
+    MssDip { low: u32, inc: u16, high: u32 },
     RttSample(u64),
 }
 
@@ -78,6 +80,7 @@ impl CheckDef for Comp {
             1 => prop_oneof![Just(0u16), 1u16..2000, 1u16..9000].prop_map(|inc| Op::SetMss { inc }),
             1 => prop_oneof![1u16..2000].prop_map(|inc| Op::SetMssOnly { inc }),
             2 => win().prop_map(Op::SetRwnd),
+            1 => (prop_oneof![Just(0u32), 1u32..3000, win()], 1u16..2000, win()).prop_map(|(low, inc, high)| Op::MssDip { low, inc, high }),
             1 => rtt_ns().prop_map(Op::RttSample),
         ];
         (
@@ -120,7 +123,15 @@ impl CheckDef for Comp {
         }
         bounds!(0, "initial");
 
-        for (i, op) in case.ops.iter().enumerate() {
+        let ops: Vec<Op> = case.ops.iter().flat_map(|op| match op {
+            Op::MssDip { low, inc, high } => vec![Op::SetRwnd(*low), Op::SetMssOnly { inc: *inc }, Op::SetRwnd(*high)],
+            o => vec![o.clone()],
+        }).collect();
+        // metamorphic twin for the MSS clause: a copy taken just before an MSS change that sees the same peer-window
+        // updates but keeps the old MSS. Once a peer window is re-applied both must hold the same bytes (each above its
+        // own two-segment floor, below the peer window). Dropped at the next event that legitimately moves the window.
+        let mut twin: Option<(Cubic, usize)> = None;
+        for (i, op) in ops.iter().enumerate() {
             let w_before = c.window() as f64;
             let ss_before = c.sshthresh() as f64;
             let upper_before = win_bytes / win_mss as f64 * mss as f64;
@@ -173,11 +184,13 @@ impl CheckDef for Comp {
                     let reapply = matches!(op, Op::SetMss { .. });
                     // only meaningful as a rescale check when the peer window was valid
                     let valid_before = win_mss == mss;
+                    if new_mss != mss && twin.is_none() { twin = Some((c, mss)); }
                     c.set_mss(new_mss);
                     if new_mss != mss { mss_changes += 1; lab.insert("mss_change"); }
                     mss = new_mss;
                     if reapply {
                         c.set_remote_window(win_bytes as usize);
+                        if let Some((t, _)) = twin.as_mut() { t.set_remote_window(win_bytes as usize); }
                         win_mss = mss;
                         if valid_before {
                             let w = c.window() as f64;
@@ -188,8 +201,10 @@ impl CheckDef for Comp {
                         }
                     }
                 }
+                Op::MssDip { .. } => unreachable!(),
                 Op::SetRwnd(w) => {
                     c.set_remote_window(w as usize);
+                    if let Some((t, _)) = twin.as_mut() { t.set_remote_window(w as usize); }
                     win_bytes = w as f64;
                     win_mss = mss;
                     if w == 0 { lab.insert("rwnd_zero"); }
@@ -199,11 +214,29 @@ impl CheckDef for Comp {
                     rtte.sample(Duration::from_nanos(ns));
                 }
             }
+            match *op {
+                Op::SetRwnd(_) | Op::SetMss { .. } => {
+                    if let Some((t, t_mss)) = &twin {
+                        if *t_mss != mss && win_mss == mss {
+                            let tw = t.window() as f64;
+                            let expect = tw.max(2.0 * mss as f64).min(win_bytes);
+                            let w = c.window() as f64;
+                            lab.insert("mss_twin_compared");
+                            if tw > 2.0 * *t_mss as f64 + 2.0 && tw < win_bytes - 2.0 { lab.insert("mss_twin_unclamped"); }
+                            if (w - expect).abs() > tol(expect) + 2.0 {
+                                return Outcome::violation("mss-change-lost-window", format!("step {i} ({op:?}): the MSS went from {t_mss} to {mss} and the peer window {win_bytes} was applied afterwards: window is {w} B, but a copy of the controller that kept MSS {t_mss} and saw the same peer-window updates holds {tw} B (expected {expect}): the MSS change did not keep the window's bytes"));
+                            }
+                        }
+                    }
+                }
+                Op::SetMssOnly { .. } | Op::RttSample(_) => {}
+                _ => twin = None,
+            }
             bounds!(i, format!("{op:?}"));
             if trace {
                 println!("#{i} {op:?} -> window={} ssthresh={} (mss {mss}, peer window {win_bytes}@{win_mss})", c.window(), c.sshthresh());
             }
-            fp.add(match op { Op::Ack { .. } => 1, Op::Rto => 2, Op::EnterRecovery => 3, Op::Recovered { .. } => 4, Op::SetMss { .. } => 5, Op::SetMssOnly { .. } => 6, Op::SetRwnd(_) => 7, Op::RttSample(_) => 8 });
+            fp.add(match op { Op::Ack { .. } => 1, Op::Rto => 2, Op::EnterRecovery => 3, Op::Recovered { .. } => 4, Op::SetMss { .. } => 5, Op::SetMssOnly { .. } => 6, Op::SetRwnd(_) => 7, Op::RttSample(_) => 8, Op::MssDip { .. } => 9 });
             fp.add((c.window() / mss.max(1)) as u64);
         }
         out.nontrivial = losses >= 1 && mss_changes >= 1 && acks >= 5 && c.window() > 2 * mss;
@@ -226,6 +259,7 @@ pub fn run(ctx: &mut Ctx) {
         Floor { label: "rwnd_lt_2mss", min_count: 50 },
         Floor { label: "ca_ack", min_count: 50 },
         Floor { label: "ss_ack", min_count: 50 },
+        Floor { label: "mss_twin_unclamped", min_count: 50 },
     ]);
 }
 
